@@ -297,7 +297,158 @@ def _follow(g, u, X, Y, fname, m):
     return None
 
 
+def head_delta(ctx):
+    """(h) While the hardware timer runs, the time the FIRST pending event still has to wait lives in the timer
+    (COIfTimerDelay); the `Delta` stored in that event is the value the timer was loaded with and is stale as soon
+    as a tick has passed.  So `Delta` of an event that is known to be the head of the used list (`tmr->Use`) may be
+    read only to (re)load the timer; every other read - in particular adding it to the successor when the head is
+    removed - shifts all later events by the part of the interval that has already elapsed."""
+    m = ctx.m
+    props = ['C08', 'C10']
+    DELTA = ('CO_TMR_TIME', 'Delta')
+    USE = ('CO_TMR', 'Use')
+    n_reads = 0
+    n_head = 0
+    for fname in sorted(f for f, fn in m.funcs.items() if fn.unit.endswith('co_tmr.c')):
+        g = m.cfg(fname)
+        facts = m.facts(fname)
+        defs = m.defs_of(fname)
+        for node in g.nodes:
+            if node.x is None or node.id not in g.reachable:
+                continue
+            stored = set(id(l) for (l, rhs, n) in m.field_stores(node.x, DELTA) if n.k == 'bin' and n.op == '=')
+            reload_args = set()
+            for c in walk(node.x):
+                if c.k == 'call' and callee_name(c) == 'COIfTimerReload':
+                    for a in c.kids[1:]:
+                        for x in walk(a):
+                            reload_args.add(id(x))
+            for x in walk(node.x):
+                if not (x.k == 'mem' and x.field == DELTA) or id(x) in stored:
+                    continue
+                n_reads += 1
+                base = strip(x.kids[0])
+                head = False
+                # (1) written as tmr->Use->Delta
+                if base.k == 'mem' and base.field == USE:
+                    head = True
+                elif base.k == 'ref':
+                    # (2) the variable was loaded from tmr->Use and not changed since
+                    u = defs.unique_def(node.id, base.ref)
+                    if u is not None and strip(u[1]) is not None and strip(u[1]).k == 'mem' and strip(u[1]).field == USE:
+                        head = True
+                    # (3) a branch established  tmr->Use == var
+                    for fa in (facts.get(node.id) or ()):
+                        fx = strip(fa.x)
+                        if fx.k == 'bin' and fx.op in ('==', '!=') and fa.pol == (fx.op == '=='):
+                            a, b = strip(fx.kids[0]), strip(fx.kids[1])
+                            for (p_, q_) in ((a, b), (b, a)):
+                                if p_.k == 'mem' and p_.field == USE and q_.k == 'ref' and q_.ref == base.ref:
+                                    head = True
+                if not head:
+                    continue
+                n_head += 1
+                site = '%s: %s' % (m.loc(fname, x), show(x))
+                if id(x) in reload_args:
+                    ctx.ob(props, 'RF15-head-delta', fname, site, 'read only to load the hardware timer')
+                else:
+                    ctx.ob(props, 'RF15-head-delta', fname, site, None)
+                    ctx.find(props, 'RF15-head-delta', fname, 'stale-head-delta', m.loc(fname, x),
+                             '%s reads the stored Delta of the first pending event (%s) for something else than loading the '
+                             'timer: while the timer runs that value is stale - the remaining time is COIfTimerDelay(); every '
+                             'later event (heartbeat, PDO event timers ...) is shifted by the part of the interval that had '
+                             'already elapsed' % (fname, show(x)))
+    ctx.inst('TMR.delta-reads', n_reads)
+    ctx.inst('TMR.head-delta-reads', n_head)
+    ctx.require_min(props, 'RF15-head-delta', n_reads, 6, 'reads of CO_TMR_TIME.Delta in co_tmr.c')
+    ctx.require_min(props, 'RF15-head-delta', n_head, 2, 'reads of the head event\'s Delta (timer reloads)')
+
+
+def create_service_tables(ctx):
+    """(c) pool conservation at the API boundary: COTmrCreate takes an action from the pool iff it will be armed
+    (both times zero / no callback / empty pool / failed insertion leave the pool as it was and report -1; a zero start
+    delay means "first expiry after one period"); COTmrService moves exactly the head event to the elapsed list and
+    loads the timer with the new head's delta or stops it."""
+    m = ctx.m
+    f = 'COTmrCreate'
+    m.need(f, 'COTmrService')
+    n = 0
+    for (start, cyc) in ((0, 0), (0, 50), (20, 0), (20, 50)):
+        for func in (0, 1):
+            for pool in (0, 1):
+                for ins in (0, 1):
+                    pe = PEval(m, f)
+                    pe.record_sets = False
+                    pe.store_filter = lambda k, fld: fld in (('CO_TMR', 'Acts'), ('CO_TMR_ACTION', 'CycleTicks'), ('CO_TMR_ACTION', 'Func'))
+                    trs = pe.run({'tmr': 1, 'startTicks': start, 'cycleTicks': cyc, 'func': func, 'para': 1, 'tmr->Node': 1,
+                                  'tmr->Acts': pool, 'call:COTmrInsert': ins, 'act->Id': 7, 'post:COTmrInsert': {'act->Id': 7}})
+                    site = 'COTmrCreate start=%d cycle=%d callback=%d pool-has-action=%d insertion=%s' % (
+                        start, cyc, func, pool, 'ok' if ins else 'fails')
+                    armed = (start or cyc) and func and pool and ins
+                    bad = None
+                    if len(trs) != 1:
+                        bad = '%d paths' % len(trs)
+                    for t in trs:
+                        acts = [e for e in t.stores() if e[4] == ('CO_TMR', 'Acts')]
+                        insc = [c for c in t.calls() if c[1] == 'COTmrInsert']
+                        if armed:
+                            if t.ret != 7:
+                                bad = 'returns %s, required the id of the action' % t.ret
+                            elif len(acts) != 1:
+                                bad = 'pool head stored %d times (take expected)' % len(acts)
+                            elif len(insc) != 1 or insc[0][2][1] != (start or cyc):
+                                bad = 'inserted with %s ticks, required %d' % ([c[2][1] for c in insc], start or cyc)
+                            elif [e[2] for e in t.stores() if e[4] == ('CO_TMR_ACTION', 'CycleTicks')] != [cyc]:
+                                bad = 'period stored %s, required %d' % ([e[2] for e in t.stores() if e[4] == ('CO_TMR_ACTION', 'CycleTicks')], cyc)
+                        else:
+                            if t.ret != -1:
+                                bad = 'returns %s although nothing was armed' % t.ret
+                            elif len(acts) not in (0, 2):
+                                bad = 'pool head stored %d times: an action is taken and not given back' % len(acts)
+                            elif not (start or cyc) and (acts or insc):
+                                bad = 'both times zero but the pool / list is touched'
+                    n += 1
+                    if bad:
+                        ctx.ob(P, 'RF2-tmr-create', f, site, None)
+                        ctx.find(P, 'RF2-tmr-create', f, 'create:%d:%d:%d:%d:%d' % (start, cyc, func, pool, ins), m.loc(f, m.funcs[f].line), '%s: %s' % (site, bad))
+                    else:
+                        ctx.ob(P, 'RF2-tmr-create', f, site, 'armed' if armed else 'refused, pool unchanged')
+    f = 'COTmrService'
+    for elapsed in (0, 1):
+        for more in (0, 1):
+            pe = PEval(m, f)
+            pe.record_sets = False
+            pe.store_filter = lambda k, fld: fld in (('CO_TMR', 'Use'), ('CO_TMR', 'Elapsed'))
+            trs = pe.run({'tmr': 1, 'tmr->Node': 1, 'call:COIfTimerUpdate': elapsed, 'tmr->Use': 1, 'tn->Next': more,
+                          'tmr->Use->Next': more, 'tmr->Elapsed': 0})
+            site = 'COTmrService timer-elapsed=%d further-event=%d' % (elapsed, more)
+            bad = None
+            for t in trs:
+                names = t.call_names()
+                st = [e[4][1] for e in t.stores()]
+                if not elapsed:
+                    if st or 'COIfTimerReload' in names or 'COIfTimerStop' in names or t.ret != 0:
+                        bad = 'no elapsed tick but lists / timer touched (stores %s, returns %s)' % (st, t.ret)
+                else:
+                    if st.count('Use') != 1 or st.count('Elapsed') != 1 or t.ret != 1:
+                        bad = 'head event not moved exactly once (stores %s, returns %s)' % (st, t.ret)
+                    elif more and ('COIfTimerReload' not in names or 'COIfTimerStop' in names):
+                        bad = 'timer not loaded for the next event'
+                    elif not more and ('COIfTimerStop' not in names or 'COIfTimerReload' in names):
+                        bad = 'timer not stopped after the last event'
+            if not trs:
+                bad = 'no path'
+            if bad:
+                ctx.ob(P, 'RF2-tmr-service', f, site, None)
+                ctx.find(P, 'RF2-tmr-service', f, 'service:%d:%d' % (elapsed, more), m.loc(f, m.funcs[f].line), '%s: %s' % (site, bad))
+            else:
+                ctx.ob(P, 'RF2-tmr-service', f, site, 'ok')
+    ctx.inst('TMR.create-rows', n)
+
+
 def run(ctx):
+    create_service_tables(ctx)
+    head_delta(ctx)
     tail_pointer(ctx)
     tail_invariant(ctx)
     process_order(ctx)
